@@ -113,6 +113,9 @@ func (c *Client) handleSearch() error {
 		if !c.dec.ExpectNumber(&num) {
 			return c.dec.Err()
 		}
+		if num == 0 {
+			return fmt.Errorf("in mailbox-data: SEARCH result must be non-zero")
+		}
 		if cmd != nil {
 			switch all := cmd.data.All.(type) {
 			case imap.SeqSet:
@@ -321,11 +324,17 @@ func readESearchResponse(dec *imapwire.Decoder) (tag string, data *imap.SearchDa
 			if !dec.ExpectNumber(&num) {
 				return "", nil, dec.Err()
 			}
+			if num == 0 {
+				return "", nil, fmt.Errorf("in search-return-data: MIN must be non-zero")
+			}
 			data.Min = num
 		case "MAX":
 			var num uint32
 			if !dec.ExpectNumber(&num) {
 				return "", nil, dec.Err()
+			}
+			if num == 0 {
+				return "", nil, fmt.Errorf("in search-return-data: MAX must be non-zero")
 			}
 			data.Max = num
 		case "ALL":
